@@ -911,19 +911,22 @@ def config_alphabet(tier, phase):
     # one source: gain alphabet complete, every distortion, both lengths, scale edges with both flags
     plan1 = {"scale": [(c, (False, True)) for c in SCALES]}
     for api, nchan in (("sources", 1), ("images", 1), ("images", 2)):
-        add(api, 1, nchan, (1024, 1536), mixings(1, (1.0, 0.5, 0.1)), D3, plan1)
+        add(api, 1, nchan, (1024, 1536) if (thorough or nchan == 1) else (1024,), mixings(1, (1.0, 0.5, 0.1)), D3,
+            plan1)
     if not thorough:
         add("sources", 2, 1, (2048,), mixings(2, (1.0, 0.0)), D3)
         add("sources", 2, 1, (2048,), mixings(2, (1.0, 0.5)), ("noise",))
         add("images", 2, 1, (2048,), mixings(2, (1.0, 0.0)), ("noise", "fir"))
         add("images", 2, 2, (2048,), leak_mixings(2, (0.5,)), ("noise",))
     else:
-        add("sources", 2, 1, (2048,), mixings(2, (1.0, 0.5, 0.1, 0.0)), D3)
-        add("sources", 2, 1, (3072,), mixings(2, (1.0, 0.5, 0.0)), D3)
-        add("images", 2, 1, (2048,), mixings(2, (1.0, 0.5, 0.0)), D3)
-        add("images", 2, 2, (2048,), mixings(2, (1.0, 0.0)), D3)
-        add("sources", 3, 1, (3072,), leak_mixings(3, (0.0, 0.5)), ("noise", "fir"))
-        add("images", 3, 1, (3072,), leak_mixings(3, (0.0, 0.5)), ("noise",))
+        add("sources", 2, 1, (2048,), mixings(2, (1.0, 0.5, 0.1, 0.0)), ("noise", "fir"))
+        add("sources", 2, 1, (2048,), mixings(2, (1.0, 0.5, 0.0)), ("none",))
+        add("sources", 2, 1, (3072,), mixings(2, (1.0, 0.0)), D3)
+        add("images", 2, 1, (2048,), mixings(2, (1.0, 0.5, 0.0)), ("noise", "fir"))
+        add("images", 2, 2, (2048,), mixings(2, (1.0, 0.0)), ("noise", "fir"))
+        add("sources", 3, 1, (3072,), leak_mixings(3, (0.0, 0.5)), ("noise",))
+        add("sources", 3, 1, (3072,), leak_mixings(3, (0.5,)), ("fir",))
+        add("images", 3, 1, (3072,), leak_mixings(3, (0.5,)), ("noise",))
         add("images", 3, 2, (3072,), [leak_mixings(3, (0.5,))[0], leak_mixings(3, (0.5,))[3]], ("noise",), plan_q)
     return out
 
